@@ -331,7 +331,7 @@ func Interp(c *ast.Chain) (vals []*big.Int, ops [][2]int, reject string) {
 			if !exists(x) {
 				return 0, "future"
 			}
-			if e.S > 1<<20 {
+			if e.S > 4096 { // same bound as hugeShift: never materialise more
 				return 0, "toolarge"
 			}
 			for k := uint(0); k < e.S; k++ {
